@@ -31,7 +31,8 @@ PROBES = ['multi-line', 'esc-prefix', 'esc-class-mismatch', 'unicode',
           'embedded-cr', 'pipelined-successor', 'malformed-mixed-codes',
           'malformed-non-numeric', 'malformed-out-of-range',
           'malformed-invalid-utf8', 'malformed-no-separator', 'truncated',
-          'code-1xx-3xx', 'reply-with-history']
+          'code-1xx-3xx', 'reply-with-history',
+          'stream-fills-read-exactly']
 STATES_MEASURE = 'distinct (reply shape flags, segmenter) pairs'
 STEP_CAP = 200000
 WORDS = ['Ok', 'Hello there', 'café 世界', '2.1.0 Sender ok',
@@ -68,6 +69,13 @@ def generate(seed, tier='quick'):
     scn['variants'] = variants
     if rng.random() < 0.7:
         scn['kind'] = 'roundtrip'
+        if rng.random() < 0.08:
+            scn['pad_to'] = 4096
+            # (whole or large pieces only: byte-wise delivery of 4 KiB
+            # costs thousands of steps and never yields a full read)
+            scn['variants'] = [['whole', None, 0, None],
+                               ['chunk', 4096, rng.choice([0, 1]), None],
+                               ['few', None, 0, None]]
         reps = []
         for _ in range(rng.randint(1, 3)):
             code = str(rng.choice([rng.randint(200, 599), 250, 354, 220, 421,
@@ -157,6 +165,19 @@ def execute(scn, debug=False):
                             r.enhanced_status_code = st[1]
                         elif st[0] == 'copy':
                             r.copy(Reply(st[1], st[2]))
+                    sent.append((r.code, r.message, r.enhanced_status_code))
+                    r.send(io_w)
+                if scn.get('pad_to'):
+                    # a last reply sized so that the whole stream is an exact
+                    # multiple of the reader's 4096-byte read: the read that
+                    # completes it fills the request and nothing follows
+                    world.probe('stream-fills-read-exactly')
+                    pending = len(io_w.send_buffer.getvalue())
+                    scratch = IO(None, ('x', 0))
+                    Reply('250', 'pad ').send(scratch)
+                    n0 = len(scratch.send_buffer.getvalue())
+                    k = (-(pending + n0)) % scn['pad_to']
+                    r = Reply('250', 'pad ' + 'p' * k)
                     sent.append((r.code, r.message, r.enhanced_status_code))
                     r.send(io_w)
                 io_w.flush_send()
